@@ -1516,6 +1516,11 @@ impl std::fmt::Debug for DhtCoreEngine {
 /// Verification hooks (C13): read-only view of the admission counters.
 #[cfg(feature = "verif-hooks")]
 impl DhtCoreEngine {
+    /// Whether `signal_shutdown` has been called (C20).
+    pub fn verif_shutdown_signalled(&self) -> bool {
+        self.shutdown.is_cancelled()
+    }
+
     /// Diversity statistics of the engine's enforcer, the per-region counts
     /// (non-zero only, sorted by region name) and the number of routing-table entries.
     pub async fn verif_admission_snapshot(
